@@ -642,6 +642,23 @@ gen_hostile(hcb_t cb, void *clo)
 			cb(&h, clo);
 		}
 	}
+	/* H9: date parts that contradict each other under the sub-daily frequencies, started shortly before a New Year
+	 * next to a leap year (the fillers carry a running day-of-year across the year end) */
+	for (int f = RF_HOURLY; f <= RF_SECONDLY; f++) {
+		static const char *const cd[] = {"BYYEARDAY=1;BYMONTHDAY=2", "BYYEARDAY=-366;BYMONTHDAY=2", "BYYEARDAY=2;BYMONTHDAY=1", "BYYEARDAY=365;BYMONTH=1", "BYYEARDAY=-1;BYMONTHDAY=30"};
+		static const char *const dts[] = {"DTSTART:20191230T000000", "DTSTART:20231231T120000", "DTSTART:20241230T060000", "DTSTART:20201231T233000"};
+		for (size_t i = 0; i < sizeof(cd) / sizeof(*cd); i++) {
+			for (size_t d = 0; d < sizeof(dts) / sizeof(*dts); d++) {
+				snprintf(h.rrule, sizeof(h.rrule), "FREQ=%s;%s", fnm[f], cd[i]);
+				snprintf(h.shape, sizeof(h.shape), "%s/contradictory-dates/YEARDAY:one/%s", fnm[f], strstr(cd[i], "BYMONTHDAY") ? "MONTHDAY:one" : "MONTH:one");
+				h.freq = f;
+				h.dtline = dts[d];
+				h.dtclass = "year-end";
+				cb(&h, clo);
+			}
+		}
+		h.dtline = NULL;
+	}
 	/* H7: SCALE whose table has run out (Diyanet ends 2023-01), Hijri month day 31 */
 	for (int f = RF_YEARLY; f <= RF_SECONDLY; f++) {
 		static const char *const sc[] = {"SCALE=HIJRI.DIYANET", "SCALE=HIJRI;BYMONTHDAY=31", "SCALE=HIJRI.IA;BYMONTHDAY=-31", "SCALE=HIJRI;BYMONTH=12", "SCALE=HIJRI.DIYANET;BYMONTH=1"};
@@ -690,7 +707,9 @@ rule_has_time(const char *r)
 static void
 hostile_case(const struct hrule_s *h, void *clo)
 {
-	static const char *const embs[] = {"alone", "rdate", "two-rrules"};
+	/* exrule: the rule is the EXCEPTION rule of a plain daily event (40 days) that has a duration; with COUNT=7 it is
+	 * exhausted long before the event is (an exhausted exception stream must not stall the filter) */
+	static const char *const embs[] = {"alone", "rdate", "two-rrules", "exrule"};
 	const int ndt = h->dtline ? 1 : 3;
 
 	(void)clo;
@@ -711,10 +730,10 @@ hostile_case(const struct hrule_s *h, void *clo)
 		if (!vd_next()) {
 			continue;
 		}
-		for (int e = 0, stop = 0; e < 3 && !stop; e++) {
+		for (int e = 0, stop = 0; e < 4 && !stop; e++) {
 			struct cas_s c;
 			struct res_s r;
-			char rrule[800], extra[256];
+			char rrule[800], extra[1100];
 			int64_t ts0;
 			int ad;
 
@@ -736,11 +755,28 @@ hostile_case(const struct hrule_s *h, void *clo)
 				if (isdate) snprintf(extra, sizeof(extra), "RDATE;VALUE=DATE:20240305,20250101\n");
 				else snprintf(extra, sizeof(extra), "RDATE:20240305T000000,20250101T120000\n");
 				break;
-			default: snprintf(extra, sizeof(extra), "RRULE:FREQ=DAILY;INTERVAL=3;COUNT=5\n"); break;
+			case 2: snprintf(extra, sizeof(extra), "RRULE:FREQ=DAILY;INTERVAL=3;COUNT=5\n"); break;
+			default: break;
 			}
 			c.extra = extra;
 			c.rrule = rrule;
 			for (int k = 0; k < 2; k++) {
+				if (e == 3 && strstr(h->shape, "tod-product") != NULL) {
+					/* maximal time-of-day products as exception rules legitimately cost their product per base
+					 * occurrence; the budget oracle cannot tell that from a stall */
+					break;
+				}
+				if (e == 3) {
+					/* the emptiness argument is about the main rule, which is plain here */
+					c.have_t0 = 0;
+					snprintf(rrule, sizeof(rrule), "FREQ=DAILY;COUNT=40");
+					snprintf(extra, sizeof(extra), "DURATION:%s\nEXRULE:%s%s\n", isdate ? "P1D" : "PT1H", h->rrule, k ? ";COUNT=7" : "");
+					if (!run(&c, &r)) {
+						stop = r.hung;
+						break;
+					}
+					continue;
+				}
 				snprintf(rrule, sizeof(rrule), "%s%s", h->rrule, k ? ";COUNT=130" : "");
 				if (k && hostile_quick && e) {
 					continue;
@@ -748,6 +784,17 @@ hostile_case(const struct hrule_s *h, void *clo)
 				if (!run(&c, &r)) {
 					stop = r.hung;
 					break;
+				}
+				if (!k && !e && c.have_t0 && r.n > 0 && proven_empty(&c.pr, c.t0) == 2) {
+					/* (c) no calendar day satisfies the date parts, yet the stream yields */
+					for (long i = 0; i < r.n; i++) {
+						if (keep[i] != INT64_MIN && keep[i] != ts0) {
+							char sig[320], b[32];
+							snprintf(sig, sizeof(sig), "empty-yields/%s/hostile", c.shape);
+							vd_viol(sig, "no calendar day satisfies the date parts of the rule, the stream yields %s (call %ld)", sf_secs_str(b, sizeof(b), keep[i], ad), i + 1);
+							break;
+						}
+					}
 				}
 				if (!k) {
 					if (r.n >= 2) vd_nontrivial();
